@@ -80,9 +80,10 @@ Definition LLDP_Type_name (t : N) : string :=
   else if N.eqb t 4 then "portdesc" else if N.eqb t 5 then "name" else if N.eqb t 6 then "description"
   else if N.eqb t 7 then "capabilities" else if N.eqb t 8 then "mngntaddr" else dec_of_N t.
 Definition LLDP_Type_arg (t : N) : getter := fun _ => Ok (VS (LLDP_Type_name t)).
-(* LLDP.Capability(v): len(v) < 2 -> ""; names for the bits 0x80 .. 0x01 of v[1] in that order, comma separated *)
+(* LLDP.Capability(v): len(v) < 2 -> ""; names for the bits 0x01 .. 0x80 of v[1] in that order, comma separated
+   (repaired bf5afdb: the masks were mirrored, 0x80 other ... 0x01 station) *)
 Definition cap_names_code : list (N * string) :=
-  [(128%N, "other"); (64%N, "repeater"); (32%N, "bridge"); (16%N, "AP"); (8%N, "router"); (4%N, "phone"); (2%N, "docsis"); (1%N, "station")].
+  [(1%N, "other"); (2%N, "repeater"); (4%N, "bridge"); (8%N, "AP"); (16%N, "router"); (32%N, "phone"); (64%N, "docsis"); (128%N, "station")].
 Definition LLDP_Capability_s (v : bytes) : string :=
   match v with
   | _ :: b :: _ => join "," (map snd (filter (fun mn => N.eqb (N.land b (fst mn)) (fst mn)) cap_names_code))
@@ -185,7 +186,7 @@ Definition dispatch (c02 : bool) (line : vtype -> string -> slice -> string) (l 
       match bytes_of_tok hx with
       | Some b => if c02 then
                     out3 ("s:" ++ LLDP_Capability_s b) ("s:" ++ lldp_capability_spec b)
-                         (if String.eqb (LLDP_Capability_s b) (lldp_capability_spec b) then "-" else "view-lldp-capability-bit-order")
+                         (if String.eqb (LLDP_Capability_s b) (lldp_capability_spec b) then "-" else "unclassified-C02-LLDP.Capability")
                   else out3 ("s:" ++ LLDP_Capability_s b) "-" "-"
       | None => BADARGS
       end
